@@ -7,7 +7,7 @@ import json
 from common import (CorrResult, Failure, enc_bool, enc_opt, enc_str, dec_str, dec_opt, parse_kv, use_repo)
 
 use_repo()
-from pedal.core.commands import (clear_report, compliment, explain, gently, give_partial, guidance,  # noqa: E402
+from pedal.core.commands import (set_pools, clear_report, compliment, explain, gently, give_partial, guidance,  # noqa: E402
                                  set_correct, suppress)
 from pedal.core.feedback import Feedback  # noqa: E402
 from pedal.core.report import MAIN_REPORT, Report  # noqa: E402
@@ -102,6 +102,16 @@ def gen_case(rng, *, max_fb=5, malformed=False, score_rate=0.4, offgrid=False):
         case["sup_at"] = [rng.randint(0, len(fbs)) for _ in sups]      # number of feedbacks created before this call
     if rng.random() < 0.2:
         case["own_report"] = True
+    # A/B pools: one pool, so it is always the chosen one; its per-class overrides are applied to every feedback
+    # object by report.finalize_feedbacks() at the start of resolve() and must be what merge() then reads
+    if fbs and rng.random() < 0.15:
+        fields = {}
+        for k, vals in (("muted", [True, False, False]), ("correct", [False, True]), ("unscored", [True, False]),
+                        ("priority", ["low", "high", "syntax"]), ("category", ["instructor", "runtime"])):
+            if rng.random() < 0.4:
+                fields[k] = rng.choice(vals)
+        if fields:
+            case["pool"] = {"ctor": rng.choice([f[0] for f in fbs] + ["Feedback"]), "fields": fields}
     return case
 
 
@@ -113,6 +123,8 @@ def build(case):
     """Create the case's feedback on a cleared MAIN_REPORT (or on a fresh Report of its own when the case says so);
     returns created objects in creation order.  `sup_at[i]` = how many feedbacks exist when suppress call i is made
     (default: all of them)."""
+    if build.report is not None:
+        build.report.clear()          # class-level state (overrides, pools) registered on the previous own report
     clear_report()
     own = Report() if case.get("own_report") else None
     build.report = own
@@ -139,6 +151,10 @@ def build(case):
         else:
             objs.append(CTORS[ctor](**kw))
     do_sups(len(case["fbs"]))
+    pool = case.get("pool")
+    if pool:
+        set_pools(1, **rk)
+        CTORS[pool["ctor"]].override_for_pool("A", **dict(pool["fields"]), **rk)
     return objs
 
 
